@@ -34,6 +34,25 @@ CLAIMS = {
         "technique": "contract-based deductive verification (representation invariant over a symbolic memo, ghost state for lru_cache + SMT)",
         "design_ref": "DESIGN.md section 4 C07",
     },
+    "C08": {
+        "text": ("Proof over the reals for any number of brackets (strictly increasing thresholds) and any vector of bases, on the real "
+                 "numpy code through a 1-D/2-D array algebra: the marginal-rate result is a sum over brackets whose (base, bracket) "
+                 "term is rate x part of the base inside the bracket (also with a positive threshold factor); the marginal-amount "
+                 "result sums exactly the amounts of brackets whose threshold lies below the base; the single-amount result is the "
+                 "amount of the bracket containing the base (0 below the first); the linear-average result is the base times the "
+                 "interpolated rate; bracket_indices counts the thresholds at or below the base (lemma, by induction: that count "
+                 "minus one is the bracket containing the base), marginal_rates / rate_from_tax_base / threshold_from_tax_base read "
+                 "that bracket; add_bracket keeps thresholds strictly increasing and updates the threshold -> value view at one key "
+                 "(commutative; a sorted list is determined by its view - lemma), so insertion order is irrelevant. Every "
+                 "postcondition is pointwise in the base index: a vector gives what each base alone gives."),
+        "note": ("floats are reals and numpy.finfo(float64).eps is 0 (with the literal eps the statement's exact equalities are off by "
+                 "ulp-scale terms); rounding options, NaN / inf bases and dtypes are not decided. numpy enters through assumed "
+                 "contracts validated against numpy on every run. Obligations the solvers cannot decide (nonlinear interpolation) "
+                 "are never reported as violations on their own: the contract's native probe scenarios are run and only a failing "
+                 "real input is reported."),
+        "technique": "contract-based deductive verification (2-D array algebra, reduction nodes compared pointwise, inductive lemmas + SMT)",
+        "design_ref": "DESIGN.md section 4 C08, section 3.4",
+    },
     "C10": {
         "text": ("Proof over the numpy array algebra for any number of persons and groups and any membership map: sum and nb_persons "
                  "(with and without role) have one element per group of the simulation and add / count exactly the members of each "
